@@ -31,5 +31,7 @@ FinalReads(block) ==
 EmitFinally == (done /\ (FinalReads(Prog) \/ (JumpThroughFinally(Prog, FALSE) /\ UsesOf(Prog) # {}))) => PrintT(ToJson([prog |-> Prog]))
 \* the loop-carried slice: one loop whose body contains a continue (definitions travel along the back edge)
 EmitLoopCont == (done /\ HasKind(Prog, {"continue"}) /\ UsesOf(Prog) # {} /\ ~DeadTail(Prog)) => PrintT(ToJson([prog |-> Prog]))
+\* the while-test slice: bodies with a `while <known local>:` loop and a use
+EmitWhileTest == (done /\ HasKind(Prog, {"whilev"}) /\ UsesOf(Prog) # {} /\ ~DeadTail(Prog)) => PrintT(ToJson([prog |-> Prog]))
 EmitLoopExit == (done /\ BreakUnder(Prog, FALSE) /\ UsesOf(Prog) # {}) => PrintT(ToJson([prog |-> Prog]))
 =============================================================================
